@@ -10,7 +10,10 @@ is a genuine relation" is proved in Ymq/Props/C18Forms.lean (`relation_genuine`:
 the entries of a relation built by `relationOf` compose, by explicit Dirichlet compositions, to the
 principal form); that composition is well defined on classes (Gauss) is not formalised, and every
 line of relations.sieve of the sampled runs is still re-checked by independent form arithmetic.
-`classgroup::legendre` is in Ymq/Props/C18Legendre.lean.
+`classgroup::legendre` is in Ymq/Props/C18Legendre.lean. Ymq/Props/C18Group.lean: the driver's form arithmetic
+(`Form.compose`, `Form.reduce`) is Gauss composition / reduction, the reduced form of a class is unique (so
+`classNumber` counts classes), `hprim` of `relation_genuine` from the conductor rejection, `emit_hom` composed with
+`relation_genuine` (`emitted_relations_genuine`).
 What IS proved in this file, for all inputs, about the models of Ymq/Model/ClassGroup.lean:
 
 * `b_plus_unique`, `bPlus_spec_odd`, `bPlus_spec_even`: the documented sign convention is well
@@ -304,9 +307,9 @@ theorem reduced_enum_nodup (D : Int) : (reducedForms D).Nodup := reducedForms_no
 
 /-- `reducedForms D` enumerates exactly the reduced primitive forms `(a, b, c)` of discriminant `D`
 (`b² - 4ac = D`, `|b| ≤ a ≤ c`, `b ≥ 0` if `|b| = a` or `a = c`, `gcd(a, b, c) = 1`), each once; so
-`classNumber D` is their number. NAMED CLASSICAL FACT, NOT PROVED HERE: for `D < 0` this number is the
-class number `h(D)` of the quadratic order of discriminant `D` (Gauss: every class of primitive
-positive definite forms contains exactly one reduced form). -/
+`classNumber D` is their number. That every class of primitive positive definite forms contains exactly one
+reduced form (Gauss) is `class_representative_unique` in Ymq/Props/C18Group.lean; NAMED CLASSICAL FACT, NOT
+PROVED: the number of form classes is the class number `h(D)` of the quadratic order of discriminant `D`. -/
 theorem reduced_enum (D : Int) :
     ∃ s : Finset Form, (∀ f, f ∈ s ↔ IsReducedPrim D f) ∧ classNumber D = s.card := by
   refine ⟨(reducedForms D).toFinset, ?_, ?_⟩
